@@ -115,6 +115,7 @@ CHECKS = {
         "quick": [
             {"name": NODE + "ZZ_C17_E12", "reach": ["E12 succeeded", "E12 failed"], "bound": "contract paths: one contract call / transfer to a contract / deployment / set-document addressed to a contract over the 4 modelled programs (see C17)", "validate": 10},
             {"name": NODE + "ZZ_C16_F12", "reach": ["F12 success", "F12 failure"] + OK_ALL, "bound": TXB + "; EndBlock with proposer A1"},
+            {"name": NODE + "ZZ_C16_F5", "reach": ["F5 checktx admitted", "F5 delivered", "F5 rejected"], "bound": "one contract transaction (call of an externally owned account with one byte of data, or deployment of program 0) with gas limit in [1,2^21] under Test1 parameters with minTrxGas symbolic in [1,2^20]; CheckTx, then DeliverTx in block 3", "validate": 10},
         ],
         "bounds": "one native transaction + block end",
         "outside": "exact gas metering of the EVM (A-EVM: gas left is arbitrary); a governance price change between blocks (C15/G6 shows parameters switch only at Commit)",
